@@ -388,7 +388,7 @@ def build_sac(ctx, rng, d, n, byteorder=None, tag="sac"):
         if delta is None:
             return None
         deltas.append(delta)
-    if len(set(deltas)) != 1 or abs(deltas[0] * fs - 1) > 1e-5:
+    if len(set(deltas)) != 1 or abs(deltas[0] - 1.0 / fs) > 1e-6:      # obspy rounds the float32 delta to 1e-6 s
         ctx.count("harness_obspy_roundtrip_failed:SAC-delta")
         return None
     return {"fmt": "sac-" + ("little" if bo == "<" else "big"), "obspy_format": "SAC", "paths": paths,
